@@ -657,4 +657,17 @@ def handwritten():
     P.append((("match", lit("k")), ("optional", (("loop", None, (("match", DG), ("yield", "Y"))),))))
     P.append((("match", lit("k")), ("optional", (("loop", None, (("match", DG), ("yield", "Y"), ("optional", (("match", lit(";")), ("break", None))))),)), ("match", lit("z")), ("yield", "Z")))
     P.append((("loop", None, (("match", AB), ("if", ((("bin", "==", ("var", "n"), ("num", 0)), (("set", "n", ("num", 1)), ("hook", "h"))),), (("yield", "Y"), ("set", "n", ("num", 0)))))),))
+    # greedy cases: priorities between action-only, empty and consuming bodies that tie on the same last byte
+    m1, m2, m3 = ("set", "m", ("num", 1)), ("set", "m", ("num", 2)), ("set", "m", ("num", 3))
+    P.append((("case", True, ((2, (lit("ab"),), (m1,)), (1, (re_("a", "[ab]"),), (m2, ("match", lit("c")))))), ("hook", "h"), ("match", lit("d"))))
+    P.append((("case", True, ((1, (lit("ab"),), (m1,)), (2, (re_("a", "[ab]"),), (m2, ("match", lit("c")))))), ("hook", "h"), ("match", lit("d"))))
+    P.append((("case", True, ((3, (lit("ab"),), ()), (2, (re_("a", "[ab]"),), (m2, ("hook", "g"))), (1, (re_("[ab]", "b"),), (m3, ("match", lit("c")))))), ("hook", "h"), ("match", lit("d"))))
+    P.append((("loop", None, (("case", True, ((2, (lit("ab"), lit("bb")), (m1,)), (1, (re_("[ab]", "b"),), (m2, ("match", lit("c")))), (None, (lit("c"),), (("break", None),)))), ("hook", "h"))), ("match", lit("d"))))
+    P.append((("case", True, ((3, (lit("aa"),), (m2,)), (2, (re_("a", "[ab]"),), (m1, ("match", lit("c")))), (None, ("else",), (m3,)))), ("hook", "h"), ("match", lit("d"))))
+    P.append((("case", True, ((1, (lit("aa"),), (m2,)), (2, (re_("a", "[ab]"),), (m1, ("match", lit("c")))), (3, (lit("b"),), ()))), ("hook", "h"), ("match", lit("d"))))
+    # ... and the same with the first observation only after the next match (a hook right after the case constrains scheduling)
+    for k in range(len(P) - 6, len(P)):
+        prog = P[k]
+        if prog[0][0] == "case" and prog[1:] == (("hook", "h"), ("match", lit("d"))):
+            P.append((prog[0], ("match", lit("d")), ("hook", "h")))
     return P
